@@ -120,12 +120,24 @@ func c05WebP(name, kind string, w, h uint32, rng *core.RNG, flags uint8) genFile
 	switch kind {
 	case "VP8":
 		s.XScale, s.YScale = uint8(rng.Intn(4)), uint8(rng.Intn(4))
+		if rng.Intn(3) > 0 { // any profile 0..3, shown or hidden frame, any first-partition size
+			s.FrameTag = [3]byte{byte(rng.Intn(4))<<1 | byte(rng.Intn(2))<<4 | byte(rng.Intn(8))<<5, byte(rng.Intn(256)), byte(rng.Intn(256))}
+			if s.FrameTag == [3]byte{} {
+				s.FrameTag[1] = 1
+			}
+		}
 	case "VP8L":
 		s.Alpha = rng.Bool()
 	case "VP8X":
 		s.Flags, s.FlagsRaw = flags, false
 		if flags&(1<<5) != 0 {
 			s.ICC = profileBytes(rng, 1+rng.Intn(300), rng.Intn(3))
+		}
+		// further chunks after the header (and the profile): Exif with its own dimension and
+		// orientation tags, XMP, animation frames with their own sizes
+		if rng.Intn(3) == 0 {
+			fr := append(append(rng.Bytes(6), byte(rng.Intn(256)), byte(rng.Intn(256)), byte(rng.Intn(256))), rng.Bytes(7)...)
+			s.Extra = [][2]any{{"EXIF", tiffExif(rng)}, {"XMP ", []byte("<x:xmpmeta><tiff:ImageWidth>17</tiff:ImageWidth></x:xmpmeta>")}, {"ANIM", []byte{0, 0, 0, 0, 0, 0}}, {"ANMF", fr}}[rng.Intn(4):]
 		}
 	}
 	b, t := s.Build()
